@@ -13,6 +13,7 @@
 #include <math.h>
 #include "cimba.h"
 #include "cmb_priorityqueue.h"
+#include <stdatomic.h>
 
 /* ---- side tables (indexed by trial number computed from the element address) */
 #define MAXTR 1024
@@ -126,6 +127,71 @@ static void run_sim(uint64_t seed, uint32_t len, struct res *out)
     W = NULL;
 }
 
+/* ---- C12 inside concurrent trials: each trial owns an object queue and a priority queue, a producer and two consumers; every
+ * delivery is compared with the trial's own model (the tag pools behind the queues are per-thread state: trials on other worker
+ * threads must not be able to disturb them). Verdicts are collected in atomics and reported after the experiment has returned. */
+static _Atomic int q_bad; static char q_msg[256]; static _Atomic uint64_t q_delivered;
+struct qworld { struct cmb_objectqueue *oq; struct cmb_priorityqueue *pq; uint64_t nput, oq_next_get, oq_next_put; uint64_t pqm[64]; int64_t pqp[64]; int npq; uint64_t tid; int done; };
+static _Thread_local struct qworld *QW;
+static void q_fail(const char *what, uint64_t a, uint64_t b) { if (!atomic_exchange(&q_bad, 1)) snprintf(q_msg, sizeof q_msg, "trial %" PRIu64 ": %s (%" PRIu64 " vs %" PRIu64 ")", QW->tid, what, a, b); }
+static void *q_producer(struct cmb_process *me, void *ctx)
+{
+    (void)me; (void)ctx; struct qworld *q = QW;
+    for (uint64_t k = 0; k < q->nput && !q_bad; k++) {
+        if (cmb_random_flip()) (void)cmb_process_hold(0.5 * (double)cmb_random_dice(0, 2));
+        if (cmb_random_flip()) { uint64_t id = ++q->oq_next_put; if (cmb_objectqueue_put(q->oq, (void *)(uintptr_t)((q->tid << 32) | id)) != CMB_PROCESS_SUCCESS) q_fail("oq put failed", id, 0); }
+        else { int64_t pr = cmb_random_dice(0, 3); uint64_t id = 0x80000000u + k; if (cmb_priorityqueue_put(q->pq, (void *)(uintptr_t)((q->tid << 32) | id), pr, NULL) != CMB_PROCESS_SUCCESS) q_fail("pq put failed", id, 0); else if (q->npq < 64) { q->pqm[q->npq] = id; q->pqp[q->npq] = pr; q->npq++; } }
+        if (cmb_objectqueue_length(q->oq) != q->oq_next_put - q->oq_next_get) q_fail("oq length", cmb_objectqueue_length(q->oq), q->oq_next_put - q->oq_next_get);
+        if (cmb_priorityqueue_length(q->pq) != (uint64_t)q->npq) q_fail("pq length", cmb_priorityqueue_length(q->pq), (uint64_t)q->npq);
+    }
+    q->done = 1;
+    return NULL;
+}
+static void *q_consumer(struct cmb_process *me, void *ctx)
+{
+    (void)me; int which = (int)(intptr_t)ctx; struct qworld *q = QW;
+    while (!q_bad) {
+        void *o = NULL;
+        if (which == 0) {
+            if (cmb_objectqueue_get(q->oq, &o) != CMB_PROCESS_SUCCESS) break;
+            uint64_t want = (q->tid << 32) | (q->oq_next_get + 1);
+            if ((uint64_t)(uintptr_t)o != want) q_fail("object queue delivered another object than the next in put order", (uint64_t)(uintptr_t)o, want);
+            q->oq_next_get++;
+        } else {
+            if (cmb_priorityqueue_get(q->pq, &o) != CMB_PROCESS_SUCCESS) break;
+            int best = -1; for (int k = 0; k < q->npq; k++) if (best < 0 || q->pqp[k] > q->pqp[best]) best = k;     /* first of the highest priority */
+            if (best < 0) { q_fail("priority queue delivered from an empty model", (uint64_t)(uintptr_t)o, 0); break; }
+            uint64_t want = (q->tid << 32) | q->pqm[best];
+            if ((uint64_t)(uintptr_t)o != want) q_fail("priority queue delivered another object than the first of the highest priority", (uint64_t)(uintptr_t)o, want);
+            for (int k = best; k + 1 < q->npq; k++) { q->pqm[k] = q->pqm[k + 1]; q->pqp[k] = q->pqp[k + 1]; } q->npq--;
+        }
+        atomic_fetch_add(&q_delivered, 1);
+        if (cmb_random_flip()) (void)cmb_process_hold(0.5 * (double)cmb_random_dice(0, 3));
+    }
+    return NULL;
+}
+static void q_end(void *s, void *o) { (void)s; (void)o; }
+static void run_qsim(uint64_t seed, uint32_t len, uint64_t tid)
+{
+    struct qworld q; memset(&q, 0, sizeof q); QW = &q; q.tid = tid + 1; q.nput = 40 + 20 * (uint64_t)len;
+    cmb_logger_flags_off(CMB_LOGGER_INFO | CMB_LOGGER_WARNING);
+    cmb_random_initialize(seed);
+    cmb_event_queue_initialize(0.0);
+    q.oq = cmb_objectqueue_create(); cmb_objectqueue_initialize(q.oq, "OQ", 3 + seed % 300);
+    q.pq = cmb_priorityqueue_create(); cmb_priorityqueue_initialize(q.pq, "PQ", 2 + seed % 7);
+    struct cmb_process *pr[3];
+    for (int k = 0; k < 3; k++) { pr[k] = cmb_process_create(); cmb_process_initialize(pr[k], k == 0 ? "prod" : "cons", k == 0 ? q_producer : q_consumer, (void *)(intptr_t)(k - 1), 0); cmb_process_start(pr[k]); }
+    (void)q_end;
+    uint64_t guard = 0;
+    while (cmb_event_execute_next()) { if (++guard > 4000000) break; }
+    if (q.done && !q_bad && (q.oq_next_get != q.oq_next_put || q.npq != 0)) q_fail("objects left undelivered at the end", q.oq_next_put - q.oq_next_get, (uint64_t)q.npq);
+    for (int k = 0; k < 3; k++) { if (cmb_process_status(pr[k]) == CMB_PROCESS_RUNNING) cmb_process_stop(pr[k], NULL); cmb_process_terminate(pr[k]); cmb_process_destroy(pr[k]); }
+    cmb_objectqueue_destroy(q.oq); cmb_priorityqueue_destroy(q.pq);
+    cmb_event_queue_terminate(); cmb_random_terminate();
+    QW = NULL;
+}
+static _Atomic int q_mode;
+
 /* ---- pollution: different per worker thread and per call, hence per schedule */
 static _Thread_local uint64_t tl_calls;
 static void pollute(void)
@@ -156,6 +222,7 @@ static void trial_func(void *vp)
     __atomic_fetch_add(&execcnt[i], 1, __ATOMIC_SEQ_CST);
     { uint64_t tag = i + 1; memcpy(p, &tag, stride < 8 ? stride : 8); }     /* the element itself is tagged by its own trial */
     if (!in_seq) who_ran[i] = pthread_self();
+    if (q_mode) { run_qsim(tseed[i], tlen[i], i); return; }
     pollute();
     run_sim(tseed[i], tlen[i], in_seq ? &res_seq[i] : &res_par[i]);
 }
@@ -175,6 +242,14 @@ void vr_case(uint64_t seed, uint64_t idx, int profile)
     if (durmix == 2) tlen[0] = 150;
     if (profile == 1) for (uint64_t i = 0; i < ntrials; i++) if (tlen[i] > 12) tlen[i] = 12;
     vr_fp_mix(ntrials); vr_fp_mix(stride); vr_fp_mix((uint64_t)durmix);
+    if (profile == 2) {
+        /* C12 under concurrent trials: twice, so that the second experiment runs on pools the first one's threads initialised */
+        q_mode = 1; if (ntrials > 200) ntrials = 200;
+        for (int round = 0; round < 2 && !q_bad; round++) { for (uint64_t i = 0; i < ntrials; i++) execcnt[i] = 0; cimba_run_experiment(arr, ntrials, stride, trial_func); }
+        if (q_bad) vr_violation("C12/concurrent-trials", "%s", q_msg);
+        VR_ADD("queue_trials", 2 * ntrials); VR_ADD("objects_delivered_in_concurrent_trials", q_delivered); VR_CNT("queue_experiments");
+        vr_mark_nontrivial(); free(arr); return;
+    }
     bool seq_first = vr_chance(&r, 1, 2);
     if (seq_first) { in_seq = 1; for (uint64_t i = 0; i < ntrials; i++) trial_func(arr + i * stride); in_seq = 0; for (uint64_t i = 0; i < ntrials; i++) { memset(arr + i * stride, 0, 8 < stride ? 8 : stride); execcnt[i] = 0; } }
     cimba_run_experiment(arr, ntrials, stride, trial_func);
